@@ -225,38 +225,42 @@ def run(ctx) -> None:
         ctx.check("R3", ok, "_iter_for_pattern yields a line's match iff the search found a non-empty text",
                   "parse._iter_for_pattern: matches are dropped (or empty matches kept) by the per-line test",
                   f"yields when {yc.to_dnf()}; required: <search result> & <matched text non-empty>: e.g. with `> 1` a one-character occurrence (MAJOR `1`) is never rewritten", loc=ifp.loc(iys[0]))
-    # yield only suppressed by overlap
-    ys = [n for n in ast.walk(inner) if isinstance(n, ast.Yield)]
-    ctx.require(len(ys) == 1, "iter_matches yield count changed")
-    cfg = cfgs.get(im.fq)
-    pc = PathCond(cfg)
-    ynode = cfg.node_containing(ys[0])
-    ycond = pc.reach(ynode).drop_unused()
+    # yield only suppressed by overlap: decided by evaluation when the body can be evaluated (helper form)
+    if not merged and iter_matches_eval(ctx, "R3") is not None:
+        ys = []
+    else:
+        ys = [n for n in ast.walk(inner) if isinstance(n, ast.Yield)]
+        ctx.require(len(ys) == 1, "iter_matches yield count changed")
+    if ys:
+        cfg = cfgs.get(im.fq)
+        pc = PathCond(cfg)
+        ynode = cfg.node_containing(ys[0])
+        ycond = pc.reach(ynode).drop_unused()
 
-    search_vars = {unparse(tg) for _s, tg, v in shapes.iter_assigns(im.node) if isinstance(v, ast.Call) and isinstance(v.func, ast.Attribute) and v.func.attr == "search"}
+        search_vars = {unparse(tg) for _s, tg, v in shapes.iter_assigns(im.node) if isinstance(v, ast.Call) and isinstance(v.func, ast.Attribute) and v.func.attr == "search"}
 
-    def ycls(leaf: ast.AST) -> T.Tuple[str, bool]:
-        if isinstance(leaf, ast.Call) and unparse(leaf.func).endswith("_has_overlap"):
-            return "OVERLAP", True
-        if merged and isinstance(leaf, ast.Name) and leaf.id in search_vars:
-            return "FOUND", True
-        cs_ = shapes.compare_shape(leaf)
-        if merged and cs_ and cs_[0] in (">", "!=") and isinstance(cs_[2], ast.Constant) and cs_[2].value == 0 and any(unparse(cs_[1]) == f"len({v_}.group(0))" for v_ in search_vars):
-            return "NONEMPTY", True
-        if merged and isinstance(leaf, ast.Call) and isinstance(leaf.func, ast.Attribute) and leaf.func.attr == "search" and unparse(leaf.func.value).endswith(".regexp"):
-            return "FOUND", True             # the search result, inlined
-        if merged and isinstance(leaf, ast.Call) and isinstance(leaf.func, ast.Attribute) and leaf.func.attr == "group" and (not leaf.args or unparse(leaf.args[0]) == "0"):
-            return "NONEMPTY", True          # norm_atom reads `len(x) > 0` as the truth of x
-        raise AnalysisError(f"C03/R3: yield condition leaf not enumerated: {unparse(leaf)[:60]}")
-    try:
-        ysem = shapes.semantic_bf(ycond, im, ycls, prog)
-        y_ok = ysem.equiv(~BF.var("OVERLAP")) if not merged else ysem.equiv(BF.var("FOUND") & BF.var("NONEMPTY") & ~BF.var("OVERLAP"))
-    except AnalysisError:
-        ysem, y_ok = ycond, False
-    ctx.check("R3", y_ok,
-              f"iter_matches: a match is yielded iff it does not overlap an earlier match  [{ysem.to_dnf()}]",
-              "parse.iter_matches: matches are suppressed by something other than the overlap test",
-              f"yield condition: {ycond.to_dnf()}", loc=im.loc(ys[0]))
+        def ycls(leaf: ast.AST) -> T.Tuple[str, bool]:
+            if isinstance(leaf, ast.Call) and unparse(leaf.func).endswith("_has_overlap"):
+                return "OVERLAP", True
+            if merged and isinstance(leaf, ast.Name) and leaf.id in search_vars:
+                return "FOUND", True
+            cs_ = shapes.compare_shape(leaf)
+            if merged and cs_ and cs_[0] in (">", "!=") and isinstance(cs_[2], ast.Constant) and cs_[2].value == 0 and any(unparse(cs_[1]) == f"len({v_}.group(0))" for v_ in search_vars):
+                return "NONEMPTY", True
+            if merged and isinstance(leaf, ast.Call) and isinstance(leaf.func, ast.Attribute) and leaf.func.attr == "search" and unparse(leaf.func.value).endswith(".regexp"):
+                return "FOUND", True             # the search result, inlined
+            if merged and isinstance(leaf, ast.Call) and isinstance(leaf.func, ast.Attribute) and leaf.func.attr == "group" and (not leaf.args or unparse(leaf.args[0]) == "0"):
+                return "NONEMPTY", True          # norm_atom reads `len(x) > 0` as the truth of x
+            raise AnalysisError(f"C03/R3: yield condition leaf not enumerated: {unparse(leaf)[:60]}")
+        try:
+            ysem = shapes.semantic_bf(ycond, im, ycls, prog)
+            y_ok = ysem.equiv(~BF.var("OVERLAP")) if not merged else ysem.equiv(BF.var("FOUND") & BF.var("NONEMPTY") & ~BF.var("OVERLAP"))
+        except AnalysisError:
+            ysem, y_ok = ycond, False
+        ctx.check("R3", y_ok,
+                  f"iter_matches: a match is yielded iff it does not overlap an earlier match  [{ysem.to_dnf()}]",
+                  "parse.iter_matches: matches are suppressed by something other than the overlap test",
+                  f"yield condition: {ycond.to_dnf()}", loc=im.loc(ys[0]))
     # overlap predicate
     rets = [n for n in ast.walk(ho.node) if isinstance(n, ast.Return) and isinstance(n.value, ast.Constant) and n.value.value is True]
     needle = ho.params[0]
@@ -830,3 +834,63 @@ def line_search_fold(ctx, ifp) -> T.Optional[T.List[str]]:
     except (CannotFold, TypeError, AttributeError, KeyError, ValueError, IndexError):
         return None
     return wrong
+
+
+def iter_matches_eval(ctx, rule: str) -> T.Optional[bool]:
+    """parse.iter_matches evaluated with six patterns whose matches (abstracted per-pattern lists) lie on two lines: a match is
+    yielded iff its closed span meets no span of an earlier match on the same line - whether that one was yielded or not - and
+    every match is remembered.  In particular a later pattern between two earlier ones on the same line is yielded."""
+    import types
+    from sa.model import Abstract, CannotFold, EvalError
+    prog = ctx.prog
+    im = prog.function("parse.iter_matches")
+
+    class M(Abstract):
+        def __init__(self, name: str, lineno: int, span: T.Tuple[int, int]):
+            self.name, self.lineno, self.span = name, lineno, span
+            self.line, self.match, self.pattern = f"line{lineno}", name, None
+
+        def __repr__(self) -> str:
+            return self.name
+    plan = [[M("A", 0, (0, 5))], [M("C", 0, (20, 25))], [M("B", 0, (10, 15)), M("B1", 1, (0, 5))], [M("D", 0, (4, 11)), M("D1", 1, (6, 9))], [M("E", 0, (5, 8))], [M("F", 0, (16, 19)), M("F1", 1, (9, 12))]]
+    pats = [f"P{i}" for i in range(len(plan))]
+
+    def ifp(f: T.Any, node: ast.Call) -> T.List[M]:
+        pat = f(node.args[1]) if len(node.args) > 1 else f([k.value for k in node.keywords if k.arg == "pattern"][0])
+        return list(plan[pats.index(pat)])
+
+    def linespan(f: T.Any, node: ast.Call) -> T.Any:
+        vals: T.List[T.Any] = []
+        for a in node.args:
+            if isinstance(a, ast.Starred):
+                vals.extend(f(a.value))
+            else:
+                vals.append(f(a))
+        kw = {k.arg: f(k.value) for k in node.keywords if k.arg}
+        names = ["lineno", "start", "end"]
+        d = dict(zip(names, vals))
+        d.update(kw)
+        return types.SimpleNamespace(**d)
+    seen: T.List[M] = []
+    want: T.List[M] = []
+    for group in plan:
+        for m in group:
+            if not any(o.lineno == m.lineno and m.span[0] <= o.span[1] and m.span[1] >= o.span[0] for o in seen):
+                want.append(m)
+            seen.append(m)
+    try:
+        env = {im.params[0]: ["line0", "line1"], im.params[1]: list(pats), "__strict__": True, "__calls__": True,
+               "__stubs__": {"_iter_for_pattern": ifp, "LineSpan": linespan}}
+        try:
+            _ret, ys = prog.run_body(im, env)
+        except EvalError as ex:
+            ys = [f"raises: {ex}"]
+    except (CannotFold, TypeError, AttributeError, KeyError, ValueError, IndexError) as ex:
+        ctx.observe(f"parse.iter_matches not evaluated ({type(ex).__name__}: {str(ex)[:80]})")
+        return None
+    ok = [getattr(y, "name", y) for y in ys] == [m.name for m in want]
+    ctx.check(rule, ok, f"iter_matches: a match is yielded iff it meets no earlier match on its line (evaluated: {len(seen)} matches of 6 patterns on 2 lines -> {[m.name for m in want]})",
+              "parse.iter_matches: a match that overlaps nothing is dropped (or an overlapping one kept)",
+              f"yields {[getattr(y, 'name', y) for y in ys]}, expected {[m.name for m in want]}: e.g. the occurrence of the pattern listed last that stands between two others on the line stays stale",
+              loc=im.loc(), witness={"line": "name=1.3.0-rc; pep=1.2.3b0; tag=v1.3.0-rc"})
+    return ok
